@@ -132,6 +132,16 @@ var c14muts = []c14mut{
 	{"poke every scalar", func(s *influxql.SelectStatement) { pokeAll(s) }},
 	{"replace/truncate/append slice elements", func(s *influxql.SelectStatement) { shrinkAll(s) }},
 	{"GroupByInterval (memo)", func(s *influxql.SelectStatement) { _, _ = s.GroupByInterval() }},
+	{"append to every list", func(s *influxql.SelectStatement) {
+		s.Fields = append(s.Fields, &influxql.Field{Expr: &influxql.VarRef{Val: "appended"}})
+		s.Dimensions = append(s.Dimensions, &influxql.Dimension{Expr: &influxql.VarRef{Val: "appended"}})
+		s.Sources = append(s.Sources, &influxql.Measurement{Name: "appended"})
+		s.SortFields = append(s.SortFields, &influxql.SortField{Name: "appended"})
+	}},
+	{"truncate every list to empty", func(s *influxql.SelectStatement) {
+		s.Fields, s.Dimensions, s.Sources, s.SortFields = s.Fields[:0], s.Dimensions[:0], s.Sources[:0], s.SortFields[:0]
+	}},
+	{"clone again", nil}, // pseudo-step: the clone is replaced by a fresh Clone() of the original as it is now
 }
 
 type c14ro struct {
@@ -225,6 +235,24 @@ func c14eval(c c14Case) (fs []ev.Finding, states []uint64) {
 	states = append(states, astx.HashString(astx.Dump(astx.Full, orig)+"\x00"+astx.Dump(astx.Full, clone)))
 	for i, st := range c.Steps {
 		m := c14muts[st[0]]
+		if m.run == nil { // clone again, in the state reached
+			if st[1] == 1 {
+				continue // only meaningful once per position
+			}
+			var nc *influxql.SelectStatement
+			if p, _ := try(func() { nc = sides[0].Clone() }); p != nil {
+				return fs, states
+			}
+			if path, a, b := astx.Diff(astx.Full, sides[0], nc); path != "" {
+				fs = append(fs, ev.Finding{Sig: "clone-differs:" + astx.GenericPath(path) + ":" + astx.ValueClass(a) + "→" + astx.ValueClass(b), Witness: wit, Detail: fmt.Sprintf("Clone after %v differs at %s: %s vs %s", c.stepNames()[:i], path, a, b), Case: c, Rank: rank})
+			}
+			if pa, pb, shared := astx.Shared(sides[0], nc); shared {
+				fs = append(fs, ev.Finding{Sig: "clone-shares-node:" + astx.GenericPath(pa), Witness: wit, Detail: fmt.Sprintf("after %v original %s and clone %s are the same mutable object", c.stepNames()[:i], pa, pb), Case: c, Rank: rank})
+			}
+			sides[1] = nc
+			clone = nc
+			continue
+		}
 		target, other := sides[st[1]], sides[1-st[1]]
 		before := astx.Dump(astx.Full, other)
 		if p, stk := try(func() { m.run(target) }); p != nil {
